@@ -6,6 +6,7 @@ import (
 	"io/fs"
 	"os"
 	"path/filepath"
+	"sort"
 	"strings"
 
 	"github.com/tableauio/tableau/format"
@@ -106,7 +107,22 @@ func HasSubdirPrefix(path string, subdirs []string) bool {
 func RewriteSubdir(path string, subdirRewrites map[string]string) string {
 	if len(subdirRewrites) != 0 {
 		path = CleanSlashPath(path)
-		for old, new := range subdirRewrites {
+		// Map iteration order is random: try the rewrites in a fixed order
+		// (longest old subdir first, then by key), so that overlapping
+		// rules always resolve the same way.
+		olds := make([]string, 0, len(subdirRewrites))
+		for old := range subdirRewrites {
+			olds = append(olds, old)
+		}
+		sort.Slice(olds, func(i, j int) bool {
+			li, lj := len(CleanSlashPath(olds[i])), len(CleanSlashPath(olds[j]))
+			if li != lj {
+				return li > lj
+			}
+			return olds[i] < olds[j]
+		})
+		for _, old := range olds {
+			new := subdirRewrites[old]
 			oldSubdir := CleanSlashPath(old)
 			newSubdir := CleanSlashPath(new)
 			if strings.HasPrefix(path, oldSubdir) {
